@@ -57,7 +57,7 @@ struct Run
   // producer state
   uint64_t seq{0}, uncommitted{0}, W{0};
   std::vector<Switch> p_switches;
-  uint64_t grows{0}, shrinks{0}, shrink_noops{0}, cap_refusals{0}, throws{0}, multi_double{0}, blocked_retries{0};
+  uint64_t grows{0}, shrinks{0}, shrink_noops{0}, cap_refusals{0}, throws{0}, multi_double{0}, blocked_retries{0}, unstorable_probes{0};
   uint32_t pending_n{0}; // request being retried
   // consumer state
   uint64_t expected{0}, R{0}, pending_commit{0};
@@ -89,7 +89,8 @@ struct Run
     uint64_t const pc = q->producer_capacity();
     uint64_t n;
     // largest record that can ever be stored: node capacities are powers of two, so with a maximum that is not
-    // a power of two sizes in (emax, max] are never granted; they are not drawn (not judged, see DESIGN.md)
+    // a power of two sizes in (emax, max] are never granted. They are requested now and then as probes: the request
+    // must be refused without allocating (and above all without growing beyond the maximum), then it is abandoned
     uint64_t emax = 1;
     while (emax * 2 <= cfg.max) emax *= 2;
     switch (cfg.sizeclass == 0 ? prng.below(10) : cfg.sizeclass)
@@ -107,7 +108,8 @@ struct Run
     }
     if (W > cfg.records * 300 && n <= cfg.max) n = 8 + prng.below(24); // byte budget spent: finish with small records
     if (n < 8) n = 8;
-    if (n > emax && n <= cfg.max) n = emax;
+    if (emax < cfg.max && prng.chance(1, 40) && W <= cfg.records * 300) n = prng.range(emax + 1, cfg.max); // unstorable probe
+    else if (n > emax && n <= cfg.max) n = emax;
     if (n > cfg.max && !prng.chance(1, 50)) n = prng.chance(1, 2) ? emax : 8 + prng.below(24); // oversize requests stay rare
     return static_cast<uint32_t>(n);
   }
@@ -211,6 +213,17 @@ struct Run
       if (now != pc || (VF_CAN_INTERPOSE && tl_alloc().mmaps != mm_before))
         fail("C02", "refusal-allocated", J{}.unum("n", n).unum("before", pc).unum("after", now));
       ++cap_refusals;
+      {
+        uint64_t emax = 1;
+        while (emax * 2 <= cfg.max) emax *= 2;
+        if (n > emax)
+        {
+          // unstorable probe (see draw_n): refused as it must be; do not retry it
+          ++unstorable_probes;
+          pending_n = 0;
+          return true;
+        }
+      }
       p_commit(); // make finished records visible, else nobody progresses
       ++blocked_retries;
       return false;
@@ -584,6 +597,7 @@ void run_cfg(Cfg const& c, bool inject)
   g_stats.add("shrink_switches", run.shrinks);
   g_stats.add("shrink_noops", run.shrink_noops);
   g_stats.add("cap_refusals", run.cap_refusals);
+  g_stats.add("unstorable_size_probes_refused", run.unstorable_probes);
   g_stats.add("oversize_throws", run.throws);
   g_stats.add("recheck_hits_old_node_after_next_seen", run.recheck_hits);
   g_stats.add("old_empty_windows", run.old_empty_windows);
